@@ -39,12 +39,25 @@ class Machine:
         kw = {}
         if h.get("timeframe"):
             kw["timeframe"] = h["timeframe"]
+            if h.get("tf_form") == "lower":
+                kw["timeframe"] = h["timeframe"].lower()
+            elif h.get("tf_form") == "enum":
+                from hexital.utils.timeframe import TimeFrame
+
+                try:
+                    kw["timeframe"] = TimeFrame(h["timeframe"])
+                except ValueError:
+                    pass
         if h.get("timeframe_fill"):
             kw["timeframe_fill"] = True
         if h.get("lifespan_s") is not None:
             kw["candles_lifespan"] = timedelta(seconds=h["lifespan_s"])
         if h.get("candlestick_type"):
             kw["candlestick_type"] = h["candlestick_type"]
+            if h.get("ctype_form") == "object":
+                from hexital.utils.candlesticks import validate_candlesticktype
+
+                kw["candlestick_type"] = validate_candlesticktype(h["candlestick_type"])
         return kw
 
     def make(self, rows, members=None, forms=None):
